@@ -113,3 +113,60 @@ def eq_claim(a, b, rel=None, abs_=None):
     if rel:
         tol = tol + rv(rel) * symx.zabs(tb)
     return symx.zabs(ta - tb) <= tol
+
+
+def compare(a, b, path='', tol=None):
+    """structural comparison of two nested dict/list/tuple/leaf structures whose numeric leaves may be proxies.
+    returns (mismatches, claims): mismatches = list of 'path: why' decided concretely; claims = list of (path, z3 Bool)
+    that must hold for the structures to be equal"""
+    mism, claims = [], []
+    _cmp(a, b, path, mism, claims, tol)
+    return mism, claims
+
+
+def _isnum(x):
+    import numpy as np
+    return isinstance(x, (int, float, np.integer, np.floating)) and not isinstance(x, bool)
+
+
+def _cmp(a, b, path, mism, claims, tol):
+    import numpy as np
+    if isinstance(a, np.ndarray):
+        a = list(a)
+    if isinstance(b, np.ndarray):
+        b = list(b)
+    if isinstance(a, dict) and isinstance(b, dict):
+        for k in a:
+            if k not in b:
+                mism.append('%s/%s: missing on the right' % (path, k))
+        for k in b:
+            if k not in a:
+                mism.append('%s/%s: missing on the left' % (path, k))
+        for k in a:
+            if k in b:
+                _cmp(a[k], b[k], '%s/%s' % (path, k), mism, claims, tol)
+        return
+    if isinstance(a, (list, tuple)) and isinstance(b, (list, tuple)):
+        if len(a) != len(b):
+            mism.append('%s: length %d vs %d' % (path, len(a), len(b)))
+            return
+        for i, (x, y) in enumerate(zip(a, b)):
+            _cmp(x, y, '%s[%d]' % (path, i), mism, claims, tol)
+        return
+    if isinstance(a, (Sym, symx.SymB)) or isinstance(b, (Sym, symx.SymB)):
+        if isinstance(a, symx.SymB) or isinstance(b, symx.SymB):
+            claims.append((path, symx._boolterm(a) == symx._boolterm(b)))
+            return
+        if not ((isinstance(a, Sym) or _isnum(a)) and (isinstance(b, Sym) or _isnum(b))):
+            mism.append('%s: %r vs %r' % (path, a, b))
+            return
+        claims.append((path, eq_claim(a, b, *(tol or (None, None)))))
+        return
+    if _isnum(a) and _isnum(b):
+        if a != b and not (a != a and b != b):
+            if tol and close(a, b, tol[0] or 0, tol[1] or 0):
+                return
+            mism.append('%s: %r vs %r' % (path, a, b))
+        return
+    if a != b:
+        mism.append('%s: %r vs %r' % (path, a, b))
